@@ -285,6 +285,12 @@ def _c03_o16(W, ob):
     return _m.o16(W, ob)
 
 
+
+def _c18_window(W, ob):
+    from . import c18 as _m
+    return _m.window_prunes(W, ob)
+
+
 OBLIGATIONS = [
     ('C05.O1', 'every accepted input packet is acknowledged', 'From the end of the shape checks every path to a normal return '
      'that is not a decoder rejection passes through send_input_ack -- including the path on which the decode reference is '
@@ -301,6 +307,7 @@ OBLIGATIONS = [
      'always answered, recv_inputs is seeded with the NULL_FRAME reference.', o5),
     ('C05.O6', 'prune window covers the ack', 'the recv_inputs prune keeps the newest received frame for every window size.', o6),
     ('C05.O9', 'every field of every wire struct travels (= C03.O16)', 'the piggy-backed ack_frame, the start frame and the connection statuses are fields of the Input message: see C03.O16', _c03_o16),
+    ('C05.O10', 'history maps are pruned by a sliding window (= C18.O11)', 'see C18.O11: a clamped threshold evicts the blank reference frame a first packet decodes against, a threshold merged with the ack never moves on a receive-only endpoint, a `!=` keeps all but one checksum', _c18_window),
     ('C05.H', 'helpers the rules above rely on', 'the bodies of the helpers named by this property\'s rules compute what the rules assume (last_recv_frame, protocol_state_tests); see rules/helpers.py', helpers.bundle('last_recv_frame', 'protocol_state_tests')),
     ('C05.W', 'configuration wiring', 'at every call site that passes a field read `x.B` for a parameter `A` the callee has no same-typed parameter `B`; in every struct literal no parameter `B` is stored in field `A` while a same-typed parameter `A` / field `B` exists (builder -> constructor -> endpoint fields: timeouts, window, fps are not crossed); see rules/wiring.py', wiring.rule),
     ('C05.O7', 'a spectator catching up after an outage consumes one frame per fetched frame (= C02.O8)', 'host->spectator links are part of this property: after a burst the spectator catches up several frames per call; each AdvanceFrame it emits carries the inputs of the next frame and the frame counter moves by exactly one per fetched frame, after the fetch succeeded. See C02.O8 / C01.O3.', c02.o8),
